@@ -1017,7 +1017,7 @@ void World::exec_op(int i) {
     switch (op.kind) {
     case OP_DISCOVER: {
         int sid = (int)op.a[0], br = (int)op.a[1];
-        Mac me = station_mac(sid), es = br >= 0 ? id_mac(*this, br) : me;
+        Mac me = sid >= 100 ? id_mac(*this, sid) : station_mac(sid), es = br >= 0 ? id_mac(*this, br) : me; // sender ids from 100 on: our own address, one-byte neighbours of it
         Bytes f = wire::header(MAC_BCAST, es, (uint8_t)op.a[2], wire::W_DISCOVER, MAC_BCAST, me, (uint16_t)op.a[4]);
         std::vector<Mac> list;
         if (op.a[5] == 0) { if ((size_t)sid < stations.size()) list = stations[sid].heard; }
